@@ -372,3 +372,16 @@ func (w *world) tmClientFor(o *xchain) (*xibctmtypes.ClientState, *xibctmtypes.C
 }
 
 var _ = packettypes.ModuleAddress
+
+// DebugWorld builds a world and returns its chains (debugging aid).
+func DebugWorld(cfg map[string]int64, rec *kernel.Rec) []*node.Chain {
+	w, err := newWorld(cfg, rec)
+	if err != nil {
+		panic(err)
+	}
+	var out []*node.Chain
+	for _, c := range w.chains {
+		out = append(out, c.Chain)
+	}
+	return out
+}
